@@ -65,7 +65,7 @@ type c25Caller struct {
 	// TokenAnswer: what the DHT answers when this caller's token record is looked up:
 	// "" (the real store), error | deadline | stale (the Get fails with a generic error,
 	// context.DeadlineExceeded, chord.ErrKVStaleOwnership), undecodable (a stored value that is
-	// not a Node). TokenStored: a proper registration record exists underneath the failing lookup.
+	// not a Node), empty (no record: an empty NON-nil value with a nil error). TokenStored: a proper registration record exists underneath the failing lookup.
 	TokenAnswer string
 	TokenStored bool
 }
@@ -103,6 +103,7 @@ func c25Callers(thorough bool) []c25Caller {
 		{Name: "token-lookup-deadline-exceeded", CN: "v1:2010:tokE2", Refused: true, Seed: "victim", TokenAnswer: "deadline"},
 		{Name: "token-lookup-stale-ownership", CN: "v1:2011:tokE3", Refused: true, Seed: "victim", TokenAnswer: "stale"},
 		{Name: "token-record-undecodable", CN: "v1:2012:tokE4", Refused: true, Seed: "victim", TokenAnswer: "undecodable"},
+		{Name: "token-record-missing-as-empty-non-nil-value", CN: "v1:2016:tokE8", Refused: true, Seed: "victim", TokenAnswer: "empty"},
 		{Name: "registered-v1", CN: "v1:1001:" + c25TokW, Seed: "victim"},
 		{Name: "registered-v2", CN: c25V2CN(1002, "key-of-W2"), Seed: "victim"},
 	}
@@ -282,6 +283,7 @@ func (w *c25World) reset(callers ...c25Caller) {
 	w.resolver.m = map[string]string{}
 	w.resolver.mu.Unlock()
 	getErr := map[string]error{}
+	emptyKeys := map[string]bool{}
 	for _, caller := range callers {
 		if caller.Seed != "victim" {
 			continue
@@ -315,15 +317,20 @@ func (w *c25World) reset(callers ...c25Caller) {
 			getErr[tokenKey] = context.DeadlineExceeded
 		case "stale":
 			getErr[tokenKey] = chord.ErrKVStaleOwnership
+		case "empty":
+			emptyKeys[tokenKey] = true // never registered; the store reports that as []byte{} with a nil error
 		case "undecodable":
 			// field 1 (varint id) followed by a length-delimited field announcing more bytes than present
 			must(w.kv.mem.Put(ctx, []byte(tokenKey), []byte{0x08, 0x01, 0x12, 0x64, 0x01}))
 		}
 	}
-	if len(getErr) > 0 {
+	if len(getErr) > 0 || len(emptyKeys) > 0 {
 		w.kv.getHook = func(k string) ([]byte, error, bool) {
 			if e, ok := getErr[k]; ok {
 				return nil, e, true
+			}
+			if emptyKeys[k] {
+				return []byte{}, nil, true
 			}
 			return nil, nil, false
 		}
